@@ -40,14 +40,25 @@ def _parse_label(lab: str) -> Dict[str, Any]:
     if lab.startswith("Upd(") and lab.endswith(")"):
         o, v = tlc.parse_value("<<" + lab[4:-1] + ">>")
         return {"a": "upd", "o": o, "v": int(v)}
+    if lab == "FreezeBN":
+        return {"a": "freezebn"}
     if not (lab.startswith("Do(") and lab.endswith(")")):
         raise MachineryError(f"edge label {lab!r}")
     return dict(tlc.parse_value(lab[3:-1]))
 
 
-def _init_of(kind: str, st: Dict[str, Any], fc: bool) -> Dict[str, Any]:
-    opt = st["core"]["opt"]
-    return {"train": bool(st["core"]["wt"]), "hard": bool(opt["hard"]), "gumbel": bool(opt["gumbel"]), "cs": st["cs"], "fc": fc}
+def _init_of(kind: str, st: Dict[str, Any], fc: bool, half: str) -> Dict[str, Any]:
+    """constructor arguments of an initial state.  modes half: the wrapper exactly as constructed (no mode call: PIT / MPS
+    take the mode of the user's network, SuperNet leaves the layers in eval mode under a wrapper flag that is True);
+    options half: followed by an explicit nas.train() / nas.eval()."""
+    opt, core = st["core"]["opt"], st["core"]
+    init = {"hard": bool(opt["hard"]), "gumbel": bool(opt["gumbel"]), "cs": st["cs"], "fc": fc, "raw": True}
+    if half == "modes":
+        init["train"] = bool(core["st"]) if kind != "sn" else True
+    else:
+        init["train"] = bool(core["wt"])
+        init["setmode"] = bool(core["wt"])
+    return init
 
 
 OPTS = {"pit": ["tf", "trf", "td", "dc"], "mps": ["temp", "hard", "gumbel", "disable"], "sn": ["temp", "hard"]}
@@ -56,24 +67,32 @@ OPTS = {"pit": ["tf", "trf", "td", "dc"], "mps": ["temp", "hard", "gumbel", "dis
 def _random_scenario(kind: str, variant: str, rng: random.Random, length: int) -> Dict[str, Any]:
     init = {"train": rng.random() < 0.7, "hard": kind != "pit" and rng.random() < 0.3,
             "gumbel": kind == "sn" and rng.random() < 0.3,
-            "cs": rng.choice(["A", "A", "D", "B"]), "fc": rng.random() < 0.5}
+            "cs": rng.choice(["A", "A", "D", "B"]), "fc": rng.random() < 0.5, "raw": True}
+    if rng.random() < 0.4:
+        init["setmode"] = rng.random() < 0.6
     cs = init["cs"]
     acts: List[Dict[str, Any]] = []
     for _ in range(length):
         u = rng.random()
         if u < 0.20:
             acts.append({"a": "export", "nobn": kind == "pit" and rng.random() < 0.3})
-        elif u < 0.32:
+        elif u < 0.29:
             acts.append({"a": "summary"})
-        elif u < 0.48:
+        elif u < 0.35:
+            acts.append({"a": "inspect"})
+        elif u < 0.49:
             acts.append({"a": "cost"} if cs != "D" else {"a": "getcost", "n": rng.choice(["a", "b"])})
-        elif u < 0.58:
+        elif u < 0.57:
             cs = rng.choice([c for c in ("A", "B", "D") if c != cs])
             acts.append({"a": "setcs", "c": cs})
-        elif u < 0.72:
+        elif u < 0.70:
             acts.append({"a": "forward"})
-        elif u < 0.80:
+        elif u < 0.77:
             acts.append({"a": "mode", "v": rng.random() < 0.5})
+        elif u < 0.83:
+            acts.append({"a": "seedmode", "v": rng.random() < 0.5})
+        elif u < 0.87 and kind != "mps":
+            acts.append({"a": "freezebn"})
         else:
             o = rng.choice(OPTS[kind])
             acts.append({"a": "upd", "o": o, "v": rng.choice([250, 500, 1000, 2000, 4000]) if o == "temp" else rng.randint(0, 1)})
@@ -134,7 +153,7 @@ def run(tier: str, seed: int, replay=None) -> int:
               "PIT train_features / train_rf / train_dilation / discrete_cost := v}).  The sequences are walks from initial states "
               "that cover EVERY edge of the two state graphs (modes half, options half) TLC computes to closure for ObserversMC "
               "per kind, executed on real models (thorough: each variant x full_cost on/off gets a complete edge cover of both "
-              "halves; quick: full_cost alternates over the variants); plus seeded random sequences mixing all calls on further "
+              "halves; quick: one complete cover per kind and half, variant and full_cost alternating over its walks); plus seeded random sequences mixing all calls on further "
               "variants.  Every scenario is executed twice (with and without its observer calls).  Non-trivial = the sequence "
               "contains an observer call that is followed by a later call.")
     R.assumptions = [
@@ -178,7 +197,7 @@ def run(tier: str, seed: int, replay=None) -> int:
     scen: List[Dict[str, Any]] = []
     graph_info = {}
     edges_total = 0
-    need = {"modes": {"export", "summary", "cost", "getcost", "setcs", "forward", "mode"},
+    need = {"modes": {"export", "summary", "cost", "getcost", "inspect", "setcs", "forward", "mode", "seedmode"},
             "options": {"export", "summary", "cost", "forward", "upd"}}
     for kind in ("pit", "mps", "sn"):
         for half, tag in (("modes", ""), ("options", "opt")):
@@ -195,7 +214,7 @@ def run(tier: str, seed: int, replay=None) -> int:
             init = sorted(cid[n] for n in init)
             calls = [_parse_label(lab) for _, _, lab in edges]
             kinds_seen = {c["a"] for c in calls}
-            if not need[half] <= kinds_seen:
+            if not (need[half] | ({"freezebn"} if half == "modes" and kind != "mps" else set())) <= kinds_seen:
                 raise MachineryError(f"vacuity guard: calls {need[half] - kinds_seen} never taken in ObserversMC/{kind}/{half}")
             if half == "options" and {c["o"] for c in calls if c["a"] == "upd"} != set(OPTS[kind]):
                 raise MachineryError(f"vacuity guard: not every option of {kind} is changed in ObserversMC/{kind}/options")
@@ -203,20 +222,20 @@ def run(tier: str, seed: int, replay=None) -> int:
             # 2. spec -> code: complete edge covers.  thorough: one per (variant, full_cost); quick: full_cost alternates
             #    over the variants (modes half; SuperNet, one variant: both) / one cover per variant, full_cost alternating
             #    (options half)
-            for vi, variant in enumerate(variants[kind]):
-                if not quick or (half == "modes" and len(variants[kind]) == 1):
-                    fcs = (False, True)
-                else:
-                    fcs = (bool(vi % 2),)
-                for fc in fcs:
+            # thorough: a complete edge cover per (variant, full_cost); quick: ONE complete cover per kind and half, the
+            # variant and full_cost alternating over its walks
+            plans = [(v, fc) for v in variants[kind] for fc in (False, True)] if not quick else [(None, None)]
+            for variant0, fc0 in plans:
                     walks = _covering_walks(nodes, edges, init, maxlen, random.Random(seed * 7919 + len(scen)))
                     covered = set()
-                    for start, walk in walks:
+                    for wi, (start, walk) in enumerate(walks):
                         covered.update(walk)
-                        scen.append({"kind": kind, "variant": variant, "init": _init_of(kind, nodes[start], fc),
+                        variant = variant0 if variant0 is not None else variants[kind][wi % len(variants[kind])]
+                        fc = fc0 if fc0 is not None else bool((wi // len(variants[kind])) % 2)
+                        scen.append({"kind": kind, "variant": variant, "init": _init_of(kind, nodes[start], fc, half),
                                      "wseed": seed, "acts": [calls[k] for k in walk], "src": "graph", "half": half})
                     if len(covered) != len(edges):
-                        raise MachineryError(f"{kind}/{variant}/{half}: walks cover {len(covered)} of {len(edges)} edges")
+                        raise MachineryError(f"{kind}/{variant0}/{half}: walks cover {len(covered)} of {len(edges)} edges")
                     edges_total += len(edges)
     # sanity (non-vacuity): the literal model of the pinned export violates the invariants / action properties,
     # and with the candidate repair of F16 the MPS model still re-samples its coefficients (F35)
@@ -230,6 +249,13 @@ def run(tier: str, seed: int, replay=None) -> int:
     # ... and an export() that switches sampling back ON instead of back to what it was changes the options
     R.design("ObserversMC", "ObserversMC_mps_optreset", expect_ok=False, workers=2)
     R.design("ObserversMC", "ObserversMC_mps_optreset_seq", expect_ok=False, workers=2)
+    # ... and an export() that puts the inner model in the mode of the WRAPPER instead of the mode it had is seen right
+    # after SuperNet(...) (wrapper flag True, layers in eval mode)
+    R.design("ObserversMC", "ObserversMC_sn_wrapmode", expect_ok=False, workers=2)
+    R.design("ObserversMC", "ObserversMC_sn_wrapmode_seq", expect_ok=False, workers=2)
+    # ... and an export() that restores ONE flag for the whole inner model thaws individually frozen BatchNorm layers
+    R.design("ObserversMC", "ObserversMC_pit_rootmode", expect_ok=False, workers=2)
+    R.design("ObserversMC", "ObserversMC_pit_rootmode_seq", expect_ok=False, workers=2)
 
     # 3. code -> spec: random sequences on all variants
     n_rand = 10 if quick else 150
